@@ -14,7 +14,31 @@ WEIGHTS = {'create': 9, 'flush': 4, 'commit': 2, 'set': 5, 'del': 3, 'read': 1}
 
 run = sesscheck.make_run(ID, PROPS, 1000, 8000, weights=WEIGHTS,
                          nontrivial=lambda program, stats: stats.get('op:flush', 0) + stats.get('op:commit', 0) > 0 and stats.get('created', 0) > 2 and bool(program['spec']['rels']))
-replay = sesscheck.make_replay(ID, PROPS)
+_replay_session = sesscheck.make_replay(ID, PROPS)
+_run_session = run
+
+
+def run(ctx):
+    _run_session(ctx)
+    if ctx.violation is not None:
+        return
+    # write histories over keys that contain references (vlib/nested_hist.py); this check judges the 'flush' category
+    from vlib import nested_hist
+
+    def th(case):
+        msg = nested_hist.judge(case, 'flush')
+        nops = sum(len(s_['ops']) for s_ in case['sessions'])
+        ctx.case(key=case, nontrivial=nops >= 4, classes=['nested_hist'], sample={'sessions': [[o[0] for o in s_['ops']] for s_ in case['sessions']]} if nops >= 6 else None)
+        if msg:
+            ctx.fail(case, msg)
+    ctx.run_test(th, dict(case=nested_hist.cases()), max_examples=ctx.scale(200, 2000), name='C16_nested_hist')
+
+
+def replay(case):
+    if case.get('kind') == 'nested_hist':
+        from vlib import nested_hist
+        return nested_hist.judge(case, 'flush')
+    return _replay_session(case)
 
 
 def _delete_after_pending_update(case, message):
